@@ -31,8 +31,8 @@ Slice(v, p) ==
           /\ "slice" \in Extra
           /\ LET P(f, t, a) == PredHolds(p, f, t, a) IN
              /\ SliceOk(g, v, P)
-             /\ \/ p.k # "edge_ne"                  \* only edges that exist are worth excluding
-                \/ (p.u \in g.present /\ KidOf(g, p.u, p.a) = p.t)
+             /\ IF p.k = "edge_ne"                 \* only edges that exist are worth excluding
+                THEN p.u \in g.present /\ KidOf(g, p.u, p.a) = p.t ELSE TRUE
              /\ ev' = [op |-> "slice", v |-> v, p |-> p, ret |-> SliceOp(g, v, P)]
           /\ g' = g
 \* every edge of every vertex reachable from v, as <<from, label, to>>
